@@ -24,6 +24,7 @@ import (
 	"github.com/buzzfeed/sso/internal/pkg/aead"
 	"github.com/buzzfeed/sso/internal/pkg/sessions"
 	"github.com/buzzfeed/sso/internal/proxy"
+	proxyproviders "github.com/buzzfeed/sso/internal/proxy/providers"
 	"github.com/buzzfeed/sso/verif/engine/vtime"
 )
 
@@ -218,6 +219,7 @@ var OtherSecret = bytes.Repeat([]byte{0x3c}, 32)
 // NewProxyEnv builds a proxy exactly like cmd/sso-proxy: configuration struct -> SetUpstreamConfigs
 // (YAML file) -> proxy.New -> logging handler.
 func NewProxyEnv(o ProxyOpts) (*ProxyEnv, error) {
+	proxyproviders.VerifRelaxClientTimeouts()
 	e := &ProxyEnv{Opts: o, Backends: map[string]*Backend{}, Secret: CookieSecret}
 	e.Auth = NewFakeAuth()
 	yaml := o.YAML
@@ -268,6 +270,8 @@ func NewProxyEnv(o ProxyOpts) (*ProxyEnv, error) {
 	c.UpstreamConfigs.DefaultConfig.AllowedGroups = o.DefaultGroups
 	c.UpstreamConfigs.DefaultConfig.EmailConfig.AllowedDomains = o.DefaultDoms
 	c.UpstreamConfigs.DefaultConfig.EmailConfig.AllowedAddresses = o.DefaultAddrs
+	// the default upstream timeout (10 s of wall clock) could fire on a heavily loaded machine
+	c.UpstreamConfigs.DefaultConfig.Timeout = 5 * time.Minute
 	if o.UpstreamTimeout != 0 {
 		c.UpstreamConfigs.DefaultConfig.Timeout = o.UpstreamTimeout
 	}
